@@ -9,7 +9,8 @@ ASSUMPTIONS = ["A2 segyio", "the reference is the real converter run on a SEG-Y 
 RULE = ("SEG-Y cubes x windows 0<=min<max<=n on both axes (starting at 0, ending at n, single line excluded, interior; window "
         "trace counts on both sides of multiples of 128) x reduce_iops on/off x detection modes x layouts: the windowed SGZ "
         "must be byte-identical to the SGZ converted from a SEG-Y containing only the windowed traces (header fields, data "
-        "section, footer, hash); plus fidelity/conformance of the windowed file itself")
+        "section, footer, hash); plus fidelity/conformance of the windowed file itself"
+        "; K: Model/Window.tStore (source trace held by every header slot) vs the stored arrays of the windowed file; window classes: all crosslines with min_il>0, all inlines, whole file")
 
 
 def one(ctx, rng, k):
